@@ -48,6 +48,7 @@ class Replayer:
         self.free = []             # per heap: (starts, ends) of free intervals, impl-side oracle
         self.live = []             # per heap: dict off -> size, impl-side allocation history
         self.totals = []           # total heap size after each gc
+        self.maxfree_before = 0
 
     def bad(self, sig, ln, text):
         if len(self.spec) < 50:
@@ -138,6 +139,9 @@ class Replayer:
                                 self.starts.pop(0)
                             self.start_gc = self.starts.pop(0) if self.starts else None
                     if pend is not None:
+                        if seenP and self.maxfree_before >= size:
+                            self.bad("alloc:collects-although-a-free-chunk-fits", ln,
+                                     "request of %d bytes went to the slow path (collection) while a free chunk of %d bytes existed" % (size, self.maxfree_before))
                         if seenP:
                             S["slow"] += 1
                             req.write("slow %d %s\n" % (size, pend["marks"]))
@@ -173,6 +177,8 @@ class Replayer:
                         cur_objs = []
                         S["gcs"] += 1
                         self.gc_ln = ln
+                        # largest chunk that is free, by the implementation's own account, when this collection starts
+                        self.maxfree_before = max([0] + [max([0] + [e - b for b, e in zip(st, en)]) for (st, en) in self.free])
                     cur_objs.append([])
                     if int(f[1]) >= len(self.heaps) or self.heaps[int(f[1])] != int(f[2]):
                         self.bad("heap-chain:size-changed", ln, line.strip())
@@ -362,6 +368,7 @@ def workloads(thorough):
             emb.append(("emb-oom-%d" % sd, [65536, 800000 + 300000 * sd, 200000, 300 + sd, 300, 2], False))
     for (nm, a, steady) in emb:
         ws.append((nm, "emb", [str(x) for x in a], [], steady, ("all",)))
+    ws.sort(key=lambda w: w[1] != "emb")          # the small complete replays first
     return ws
 
 
@@ -600,6 +607,9 @@ def run(ctx):
     total = dict(allocs=0, gcs=0, slow=0, grows=0, ooms=0)
     for (name, kind, cargs, sargs, steady, window) in workloads(ctx.thorough):
         if kind == "scm" and not complete:
+            continue
+        if kind == "scm" and ctx.violations and not ctx.thorough:
+            ctx.note("Scheme workload %s skipped: the embedding workloads already produced violations" % name)
             continue
         w = run_workload(d, name, kind, cargs, sargs, outdir, timeout=(30 if kind == "emb" else 900))
         if not os.path.exists(w["trace"]):
